@@ -50,13 +50,13 @@ def install():
     _Mol = importlib.import_module("seqm.Molecule")  # (seqm.Molecule attribute of the package is the class)
     B, L = MD.Molecular_Dynamics_Basic, MD.Molecular_Dynamics_Langevin
     _INSTALLED["saved"] = [
-        (MD, "h5py", MD.h5py), (MD, "_rotate_existing", MD._rotate_existing), (MD.XYZWriter, "open", MD.XYZWriter.open),
+        (MD, "h5py", MD.h5py), (MD, "_rotate_existing", MD._rotate_existing), (MD, "open", getattr(MD, "open", open)),
         (MD, "esdriver", MD.esdriver), (MD, "tempfile", MD.tempfile), (MD, "os", MD.os), (MD, "torch", MD.torch),
         (B, "_output_to_screen", B._output_to_screen), (_Mol, "Molecule", _Mol.Molecule), (FakeES, "forward", FakeES.forward),
     ]
     MD.h5py = types.SimpleNamespace(File=FakeFile)
-    MD._rotate_existing = lambda *a, **k: None
-    MD.XYZWriter.open = _fake_xyz_open
+    MD._rotate_existing = _fake_rotate
+    MD.open = _fake_open  # the real XYZWriter.open (incl. its resume logic) runs over the in-memory text files
     MD.esdriver = FakeES
     MD.tempfile = _FakeTempfile
     MD.os = _FakeOS(_os)
@@ -89,8 +89,8 @@ class Store:
         self.h5_durable = {}  # path -> {(dataset,row): value}
         self.h5_buffer = {}
         self.h5_meta = {}  # path -> (groups set, dsets dict name->shape)
-        self.xyz_durable = {}  # path -> [frame labels]
-        self.xyz_buffer = {}
+        self.xyz_text = {}  # path -> durable text of the XYZ file
+        self.xyz_buffer = {}  # path -> [frame strings still in the process-side buffer]
         self.files = {}  # checkpoint FS: path -> object ("PARTIAL" marker for torn files)
         self.dead = False
         self.screen = []
@@ -101,13 +101,16 @@ class Store:
         self.nevents = 0
 
     # every externally visible operation is an event at which the process may die
-    def event(self, kind):
+    def event(self, kind, hard_only=False):
+        """hard_only: a point at which only a kill can stop the process (inside a single OS-level write)"""
         if self.dead:
             return
         n = self.nevents
         self.nevents += 1
         self.events.append(kind)
         if self.crash_at_event is not None and n == self.crash_at_event:
+            if hard_only and not self.crash_hard:
+                return
             if self.crash_hard:
                 self.kill()
             raise Crash(kind)
@@ -118,6 +121,9 @@ class Store:
         self.dead = True
 
     def revive(self):
+        # a resumed run is a new process: whatever the dead one still held in its buffers is gone
+        self.h5_buffer = {k: {} for k in self.h5_buffer}
+        self.xyz_buffer = {k: [] for k in self.xyz_buffer}
         self.dead = False
         self.crash_at_event = None
         self.nevents = 0
@@ -203,36 +209,99 @@ class FakeFile(FakeNode):
 
 
 class FakeXYZ:
-    def __init__(self, path):
-        self.path = path
+    """text file: durable part ST.xyz_text[path] + process-side buffer of written frames.  Supports what the real
+    XYZWriter does with a file: append + flush + close, and (on resume) readline/tell/truncate on an r+ handle."""
 
+    def __init__(self, path, mode):
+        self.path, self.mode, self.pos = path, mode, 0
+        ST.xyz_text.setdefault(path, "")
+        ST.xyz_buffer.setdefault(path, [])
+
+    def __enter__(self):
+        return self
+
+    def __exit__(self, *a):
+        self.close()
+        return False
+
+    # ---- reading side (resume) ----
+    def readline(self):
+        t = ST.xyz_text.get(self.path, "")
+        if self.pos >= len(t):
+            return ""
+        k = t.find("\n", self.pos)
+        end = len(t) if k < 0 else k + 1
+        line = t[self.pos : end]
+        self.pos = end
+        return line
+
+    def tell(self):
+        return self.pos
+
+    def truncate(self, pos=None):
+        if ST.dead:
+            return
+        ST.event("xyztruncate")
+        pos = self.pos if pos is None else pos
+        ST.xyz_text[self.path] = ST.xyz_text.get(self.path, "")[:pos]
+
+    # ---- writing side ----
     def write(self, s):
         if ST.dead:
             return
         ST.event("xyzframe")
-        ST.xyz_buffer.setdefault(self.path, []).append(int(s.splitlines()[1].split()[1]))
+        ST.xyz_buffer.setdefault(self.path, []).append(s)
 
     def flush(self):
         if ST.dead:
             return
+        buf = ST.xyz_buffer.get(self.path, [])
         ST.event("xyzflush")
-        ST.xyz_durable.setdefault(self.path, []).extend(ST.xyz_buffer.get(self.path, []))
+        if buf:
+            text = "".join(buf)
+            cut = len(text) - len(buf[-1]) // 2  # a kill inside the write leaves a prefix: the last frame is torn
+            ST.xyz_text[self.path] = ST.xyz_text.get(self.path, "") + text[:cut]
+            ST.event("xyzflush:mid", hard_only=True)
+            ST.xyz_text[self.path] += text[cut:]
         ST.xyz_buffer[self.path] = []
 
     def close(self):
         self.flush()
 
 
-def _fake_xyz_open(self):
-    for mol in self.config.molid:
-        fn = f"{self.config.prefix}.{mol}.xyz"
-        if self.step_offset == 0:
-            ST.xyz_durable[fn] = []
-            ST.xyz_buffer[fn] = []
-        else:
-            ST.xyz_durable.setdefault(fn, [])
-            ST.xyz_buffer.setdefault(fn, [])
-        self.files[mol] = FakeXYZ(fn)
+def _fake_open(fn, mode="r", buffering=-1, **kw):
+    if not str(fn).endswith(".xyz"):
+        raise OSError("fake open: unexpected path %r" % (fn,))
+    return FakeXYZ(fn, mode)
+
+
+def _fake_rotate(path, *a, **k):
+    ST.xyz_text.pop(path, None)
+    ST.xyz_buffer[path] = []
+
+
+def xyz_labels(text):
+    """step labels of the frames in an XYZ text; a frame that is not complete is reported as the label -999"""
+    lines = text.split("\n")
+    if lines and lines[-1] == "":
+        lines.pop()
+        complete_tail = True
+    else:
+        complete_tail = False
+    out, i = [], 0
+    while i < len(lines):
+        try:
+            n = int(lines[i])
+            step = int(lines[i + 1].split()[1])
+            body = lines[i + 2 : i + 2 + n]
+            if len(body) < n or (i + 2 + n == len(lines) and not complete_tail):
+                raise ValueError
+            out.append(step)
+            i += 2 + n
+        except (ValueError, IndexError):
+            out.append(-999)
+            break
+    return out
 
 
 # ---- in-memory file system for the checkpoint writer (real _atomic_save_checkpoint runs) ------------
@@ -252,7 +321,7 @@ class _FakeOS:
 
     def __init__(self, real):
         self._real = real
-        self.path = types.SimpleNamespace(dirname=real.path.dirname, exists=lambda p: p in ST.files, splitext=real.path.splitext, join=real.path.join, basename=real.path.basename)
+        self.path = types.SimpleNamespace(dirname=real.path.dirname, exists=lambda p: p in ST.files or p in ST.xyz_text, splitext=real.path.splitext, join=real.path.join, basename=real.path.basename)
 
     def close(self, fd):
         return None
@@ -454,7 +523,7 @@ def resume(prefix="/mem/x", crash_event=None, hard=True):
 def snapshot():
     """durable content: {h5 path: {(dataset,row): value}}, {xyz path: [frames]}, capacities"""
     h5 = {k: dict(v) for k, v in ST.h5_durable.items()}
-    xyz = {k: list(v) for k, v in ST.xyz_durable.items()}
+    xyz = {k: xyz_labels(v) for k, v in ST.xyz_text.items()}
     caps = {k: {n: s for n, s in v[1].items()} for k, v in ST.h5_meta.items()}
     return h5, xyz, caps
 
